@@ -34,7 +34,7 @@ Print Assumptions C20_by_account_nil.
 (* For every history: after any chain of blocks that starts at a boundary and in which the guard holds whenever a
    transaction starts, the three views agree on every registered miner. *)
 Theorem C20_history_views_agree : forall e bs s, boundary s -> reg_wf (ids e) s -> acct_unique s ->
-  Forall (fun b => block_closed (ids e) (snd b)) bs -> guarded_chain e bs s ->
+  Forall (fun b => block_closed (ids e) (block_txs b)) bs -> guarded_chain e bs s ->
   let s' := run_chain e bs s in
   forall k i, registered s' k i ->
     get_miner s' i = Some (k, cur s' k i) /\ In i (iter_ids e s' k) /\ by_account e s' (s_acct (cur s' k i)) = Some i.
@@ -56,10 +56,11 @@ Theorem C20_conservation_tx : forall A I W e h t s, universe A I -> supply_bound
 Proof. exact run_tx_inv. Qed.
 Print Assumptions C20_conservation_tx.
 
-(* every history of blocks (transactions, RefundManager.Add, CheckAndMove, flush): wealth stays W, balances stay
-   non-negative, the registry stays well-formed *)
-Theorem C20_conservation : forall A I W e bs s, universe A I -> supply_bound W ->
-  Forall (fun b => txs_closed A I (snd b)) bs -> led_inv A I W s -> led_inv A I W (run_chain e bs s).
+(* every history of blocks (transactions, RefundManager.Add of refunds and of the block's rewards, CheckAndMove,
+   flush): wealth = initial wealth + the rewards the blocks' after() phases scheduled, balances stay non-negative,
+   the registry stays well-formed *)
+Theorem C20_conservation : forall A I e bs W s, universe A I -> supply_bound (W + minted_chain bs) ->
+  Forall (block_closed_led A I) bs -> led_inv A I W s -> led_inv A I (W + minted_chain bs) (run_chain e bs s).
 Proof. exact run_chain_inv. Qed.
 Print Assumptions C20_conservation.
 
@@ -72,8 +73,8 @@ Print Assumptions C20_stake_accounting.
 
 (* for every history: the stake of miner i after the chain = its stake before + everything the successful
    apply / add / refund transactions of the chain booked for it *)
-Theorem C20_stake_history : forall A I W e bs s i, universe A I -> supply_bound W ->
-  Forall (fun b => txs_closed A I (snd b)) bs -> led_inv A I W s ->
+Theorem C20_stake_history : forall A I e bs W s i, universe A I -> supply_bound (W + minted_chain bs) ->
+  Forall (block_closed_led A I) bs -> led_inv A I W s ->
   stake_of (run_chain e bs s) i = stake_of s i + booked_chain e bs s i.
 Proof. exact run_chain_stake. Qed.
 Print Assumptions C20_stake_history.
@@ -93,7 +94,7 @@ Print Assumptions C20_rejected_noop.
    succeed (GetMinerIdByAccount iterates the storage trie, which does not hold the first registration yet). *)
 Theorem C20_account_unique_refuted :
   exists e h ts s, boundary s /\ reg_wf (ids e) s /\ acct_unique s /\ block_closed (ids e) ts /\
-    snd (run_block e h ts s) = [ROk; ROk] /\ ~ acct_unique (fst (run_block e h ts s)).
+    snd (run_block e h ts [] s) = [ROk; ROk] /\ ~ acct_unique (fst (run_block e h ts [] s)).
 Proof. exact account_unique_refuted. Qed.
 Print Assumptions C20_account_unique_refuted.
 
@@ -101,7 +102,7 @@ Print Assumptions C20_account_unique_refuted.
    address reported by the main-node contract already carries a miner. *)
 Theorem C20_account_unique_refuted_opnode :
   exists e bs s, boundary s /\ reg_wf (ids e) s /\ acct_unique s /\
-    Forall (fun b => length (snd b) = 1%nat) bs /\ ~ acct_unique (run_chain e bs s).
+    Forall (fun b => length (block_txs b) = 1%nat) bs /\ ~ acct_unique (run_chain e bs s).
 Proof. exact account_unique_refuted_opnode. Qed.
 Print Assumptions C20_account_unique_refuted_opnode.
 
@@ -114,7 +115,7 @@ Proof. exact run_tx_unique. Qed.
 Print Assumptions C20_account_unique_step.
 
 (* ... and by every guarded history. *)
-Theorem C20_account_unique : forall e bs s, reg_wf (ids e) s -> Forall (fun b => block_closed (ids e) (snd b)) bs ->
+Theorem C20_account_unique : forall e bs s, reg_wf (ids e) s -> Forall (fun b => block_closed (ids e) (block_txs b)) bs ->
   guarded_chain e bs s -> acct_unique s ->
   reg_wf (ids e) (run_chain e bs s) /\ acct_unique (run_chain e bs s).
 Proof. exact run_chain_unique. Qed.
@@ -135,8 +136,8 @@ Example C20_hypotheses_satisfiable :
   universe [1%N; 2%N] [1%N; 2%N] /\ supply_bound (tok 10000) /\
   led_inv [1%N; 2%N] [1%N; 2%N] (tok 10000) (empty_state rich) /\
   boundary (empty_state rich) /\ reg_wf (ids env2) (empty_state rich) /\ acct_unique (empty_state rich) /\
-  guarded_chain env2 [(100%N, [TApply 2 true 0 1 400 0 true])] (empty_state rich) /\
-  registered (run_chain env2 [(100%N, [TApply 2 true 0 1 400 0 true])] (empty_state rich)) 0 1.
+  guarded_chain env2 [(100%N, [TApply 2 true 0 1 400 0 true], [])] (empty_state rich) /\
+  registered (run_chain env2 [(100%N, [TApply 2 true 0 1 400 0 true], [])] (empty_state rich)) 0 1.
 Proof.
   split; [exact example_universe|]. split; [vm_compute; reflexivity|]. split; [exact example_inv|].
   split; [apply empty_boundary|]. split; [apply empty_reg_wf|]. split; [apply empty_unique|].
